@@ -12,4 +12,8 @@ def jobs(tier):
             J.append(dict(id='laws_%s_%s' % (KN[a], KN[b]), harness='h_laws', props=['C09'], unwind=6, defs=dict(KSET_A=a, RSET_A=0, RBMAX=0, KSET_B=b), timeout=1500 if 7 in (a, b) else 300, mem_gb=6,
                           desc='compare laws: antisymmetry, reflexivity, ==/!=/</<=/>/>= agree with compare; no unreachable/assert',
                           bound='lhs %s x rhs %s (values held directly, not behind json_ref), all 64-bit payloads, strings <= 3 chars' % (KN[a], KN[b])))
+    for sk, skn in ((2, 'int64'), (3, 'uint64')):
+        for tn, bits, sg in (('i8', 8, 1), ('i16', 16, 1), ('i32', 32, 1), ('i64', 64, 1), ('u8', 8, 0), ('u16', 16, 0), ('u32', 32, 0), ('u64', 64, 0)):
+            J.append(dict(id='isas_%s_%s' % (skn, tn), harness='h_isas', props=['C09'], unwind=6, defs=dict(SKIND=sk, TNAME=tn, TBITS=bits, TSIGNED=sg), timeout=300, mem_gb=6,
+                          desc='is<%s>() on a %s-stored json is true exactly when the stored number is representable, and then as<%s>() returns it exactly' % (tn, skn, tn), bound='all 2^64 stored values'))
     return J
